@@ -141,6 +141,11 @@ func (n *LocalNode) RequestToJoin(joiner chord.VNode) (chord.VNode, []chord.VNod
 	}()
 
 	prevPredecessor = n.predecessor
+	if prevPredecessor == nil {
+		// the predecessor failed and was cleared by checkPredecessor, and no node has
+		// notified us yet: the range to hand over is unknown, let the joiner retry
+		return nil, nil, chord.ErrJoinInvalidState
+	}
 
 	// see issue https://github.com/zllovesuki/specter/issues/23
 	if !chord.Between(prevPredecessor.ID(), joiner.ID(), n.ID(), false) {
